@@ -61,6 +61,8 @@ class Native:
         self.ns.setdefault("forall", lambda fn, *tys, **kw: self._quant(all, fn, tys))
         self.ns.setdefault("exists", lambda fn, *tys, **kw: self._quant(any, fn, tys))
         # pure functions under contract double as spec symbols in clause texts
+        # RUNTIME_CONTRACTS: contracts that are only evaluated at run time on the real function (bounded; the verifier never sees them)
+        self.contracts = {**self.side.CONTRACTS, **getattr(self.side, "RUNTIME_CONTRACTS", {})}
         for name, c in self.side.CONTRACTS.items():
             if c.get("pure") and name not in self.ns and "." not in name:
                 try:
@@ -207,7 +209,7 @@ class Native:
 
     def run_case(self, fname: str, args: dict[str, Any]) -> dict[str, Any]:
         """Execute the real function on `args`; evaluate its contract natively."""
-        c = self.side.CONTRACTS[fname]
+        c = self.contracts[fname]
         out: dict[str, Any] = {"function": fname, "violations": [], "skipped": False}
         self.collect_universe(args)
         self.old_snapshot = None
@@ -228,7 +230,7 @@ class Native:
             old = copy.deepcopy(args)
         if hasattr(self.side, "native_old"):
             old = self.side.native_old(self, fname, args, old)
-        fn = None if fname in getattr(self.side, "NATIVE_CALL", {}) else self.real(self.side.CONTRACTS[fname].get("source_name") or fname)
+        fn = None if fname in getattr(self.side, "NATIVE_CALL", {}) else self.real(self.contracts[fname].get("source_name") or fname)
         call_args = args
         if hasattr(self.side, "native_call_args"):
             call_args = self.side.native_call_args(self, fname, args)
@@ -325,6 +327,7 @@ def main(argv: list[str]) -> int:
                      "small_scope_enumeration": f in getattr(side, "SMALL", {})}
             for args in _it.chain(*gens):
                 shown = safe_repr(args)
+                enc0 = encode_args(side, f, args)     # before the call: the function may mutate its arguments
                 r = nat.run_case(f, args)
                 stats["cases"] += 1
                 if r["skipped"]:
@@ -335,7 +338,7 @@ def main(argv: list[str]) -> int:
                 if r["violations"]:
                     stats["violations"] += 1
                     if stats["first_violation"] is None:
-                        stats["first_violation"] = {"args": shown, "encoded": encode_args(side, f, args), **r}
+                        stats["first_violation"] = {"args": shown, "encoded": enc0, **r}
             per[f] = stats
         res["functions"] = per
     elif cmd in ("replay", "replayfile"):
